@@ -85,6 +85,10 @@ CategoryClasses ==
    half     |-> [dc |-> TRUE,  vals |-> <<R(0), <<1, 2>>, R(1)>>],
    nonnum   |-> [dc |-> TRUE,  vals |-> <<R(0), NaN>>],
    missing  |-> [dc |-> TRUE,  vals |-> <<R(0), NaN>>],
+   \* pseudo-fields (typing.ClassVar, dataclasses.InitVar annotations) are not fields: vals lists the fields only
+   classvar_valid   |-> [dc |-> TRUE, vals |-> <<R(0), R(1)>>],        \* + a ClassVar[str] constant declared first
+   classvar_invalid |-> [dc |-> TRUE, vals |-> <<R(1), R(2)>>],        \* + a ClassVar[int] = 0 declared first
+   initvar_trailing |-> [dc |-> TRUE, vals |-> <<R(0), R(1)>>],        \* + an InitVar[int] = 2 declared last
    plain    |-> [dc |-> FALSE, vals |-> <<R(0), R(1)>>],
    instance |-> [dc |-> TRUE,  vals |-> <<R(0), R(1)>>]]
 \* accepted exactly when a dataclass whose field values are numerically 0, 1, 2, ...
